@@ -200,7 +200,9 @@ def requests_for(stream_msg, idx, scaled=False, nvar=6):
     foreign = sum(1 for e in st if e["g"] != "g1")
     reqs = [(dict(base, target="server", pol="all"), out["all"], 0)]
     variants = [(dict(base, target="server+filter", pol=p, writable=POLICY_WRITABLE[p]), out[p], 0) for p in (["g1"] if scaled else ["all", "g1", "g2"])]
-    variants.append((dict(base, target="kvgraph", pol="all"), out["all"], 0))
+    # every other stream hands kvgraph its invalid elements in a second concrete shape: valid id, label and endpoints but
+    # data that cannot be stored (a Go []string) - still one element that is skipped and counted, nothing more
+    variants.append((dict(base, target="kvgraph", pol="all", unstorable=(idx % 2 == 1)), out["all"], 0))
     variants.append((dict(base, target="streambatch", pol="g1", graph="g1", batch=(50 if scaled else 1 + (idx // 3) % 3)), out["g1"], foreign))
     variants.append((dict(base, target="sequential", pol="all"), out["all"], 0))
     if nvar >= len(variants):
